@@ -61,6 +61,26 @@ func invalidPayload(m *shmsg.Message) string {
 			}
 		}
 	}
+	if bc := m.GetBatchConfig(); bc != nil {
+		seen := map[string]bool{}
+		for i, k := range bc.Keypers {
+			if len(k) != 20 {
+				return fmt.Sprintf("keyper %d is not a 20-byte address", i)
+			}
+			if seen[string(k)] {
+				return fmt.Sprintf("keyper %d is listed twice", i)
+			}
+			seen[string(k)] = true
+		}
+		switch {
+		case len(bc.Keypers) == 0:
+			return "configuration without keypers"
+		case bc.Threshold == 0:
+			return "threshold 0"
+		case bc.Threshold > uint64(len(bc.Keypers)):
+			return fmt.Sprintf("threshold %d above the number of keypers %d", bc.Threshold, len(bc.Keypers))
+		}
+	}
 	if ci := m.GetCheckIn(); ci != nil {
 		if len(ci.ValidatorPublicKey) != 32 {
 			return "validator public key is not 32 bytes long"
